@@ -946,6 +946,9 @@ func mutexOp(c ssa.CallInstruction) (op string, mu string) {
 		}
 		ap := pathOf(args[0])
 		name := strings.Join(ap.FieldNames(), ".")
+		if name == "" {
+			name = ap.String()
+		}
 		return f.Name(), name
 	}
 	return "", ""
